@@ -439,6 +439,7 @@ func run(e *harness.Env) {
 		"(ws) a line break / tab inside a string value at every position of every subset of <=3 of 5 addresses x 5 string kinds x in/reversed; " +
 		"(sheets) two sheets: every pair of subsets of <=2 of 5 addresses (incl. empty) x rotating kinds (8 / 2) x 4 package layouts (standard, part numbers swapped against declared order, absolute targets, custom relationship ids); " +
 		"(xsheet) two sheets, each independently x merge layout {none, A1:B2, B1:C1, A2:A3, B1:C1+A2:A3} (quick: none, A1:B2, B1:C1+A2:A3) x every subset of <=2 of the addresses inside those regions (5 quick / 7 thorough, incl. the empty sheet) x rotating kinds (1 / 3) x <dimension> in both / only one sheet, plus 6^3 three-sheet workbooks: nothing of one sheet may show in another; " +
+		"(select) 6 two-/three-sheet workbooks x ExtractOptions.Sheets = every index sequence of length 1..n (repeats, descending, non-prefix) + 6 sequences with out-of-range entries x selecting call {TextWithOptions, MarkdownWithOptions, MarkdownWithRAGOptions} x follow-up on the same reader {none: the selecting call's own output judged; grid, text, md, model, tables: must equal a fresh reader's}; " +
 		"(sst) shared / rich shared strings with reversed, padded and reversed+padded string tables, one and two sheets; " +
 		"(variants) t=\"n\", formula-cached number/bool/error/text, no <dimension>, no styles part, deflated members, styled blank cells before/after/below the content. " +
 		"distinct = distinct descriptors; non-trivial = everything except a workbook whose only cell is A1 (any kind) and the single-letter columns of the codec"
@@ -461,7 +462,7 @@ func run(e *harness.Env) {
 		name string
 		f    func(*harness.Env, string)
 	}{{"codec", func(e *harness.Env, _ string) { codecSpace(e) }}, {"cells", cellsSpace}, {"merge", mergeSpace}, {"ws", wsSpace},
-		{"sheets", sheetsSpace}, {"xsheet", xsheetSpace}, {"sst", sstSpace}, {"variant", variantSpace}} {
+		{"sheets", sheetsSpace}, {"xsheet", xsheetSpace}, {"select", selectSpace}, {"sst", sstSpace}, {"variant", variantSpace}} {
 		if want(sp.name) {
 			sp.f(e, tmp)
 		}
